@@ -62,6 +62,14 @@ M = [
   "            self.last_remaining_rx_window\n                .saturating_sub(self.ooq.stored_bytes())", "            self.last_remaining_rx_window", "window overstates while packets are parked"),
  ("c04-push-capacity-off-by-one", "C04", "C04.5", "try_push_back|push_back-not-guarded-by", "src/stream_rx.rs",
   "            if self.capacity - self.len_bytes < len {\n                return Err(msg);\n            }", "            if self.capacity < len {\n                return Err(msg);\n            }", "capacity guard ignores what is already queued"),
+ ("c04-sack-start-shifted", "C04", "C04.6", "sack-range-start|filled_front+0", "src/stream_rx.rs",
+  "        let start = self.filled_front + 1;\n        if start >= self.data.len() {", "        let start = self.filled_front;\n        if start >= self.data.len() {", "every SACK bit names the previous packet (the hole itself is reported as received)"),
+ ("c04-sack-consumer-start-plus-1", "C04", "C04.6", "sack_start|ack_nr+1", "src/stream_tx_segments.rs",
+  "                let sack_start = ack_header.ack_nr + 2;", "                let sack_start = ack_header.ack_nr + 1;", "sender shifts every bit by one: the lost segment is marked delivered"),
+ ("c04-sack-negative-offset-not-skipped", "C04", "C04.6", "sack-zip-alignment", "src/stream_tx_segments.rs",
+  "                        .zip(sack.iter().skip((-sack_start_offset) as usize))", "                        .zip(sack.iter())", "bits misaligned when the queue head is already past ack_nr + 2"),
+ ("c04-sack-marks-unsacked", "C04", "C04.6", "is_delivered=true|not-under(bit=true)", "src/stream_tx_segments.rs",
+  "                    if !segment.is_delivered && is_sacked {", "                    if !segment.is_delivered {", "every segment in SACK range is marked delivered"),
  # ---------------------------------------------------------------- C05
  ("c05-budget-guard-dropped", "C05", "C05.1", "new-data-send|not-guarded-by(remaining_cwnd>=payload_size)", "src/stream_dispatch.rs",
   "            if remaining_cwnd < item.payload_size() {\n                METRICS.send_window_exhausted.increment(1);\n                trace_every_ms!(100, \"remote recv window exhausted\");\n                break;\n            }\n", "            if remaining_cwnd == 0 {\n                METRICS.send_window_exhausted.increment(1);\n                trace_every_ms!(100, \"remote recv window exhausted\");\n                break;\n            }\n", "sends a full segment into a 1-byte budget"),
